@@ -24,7 +24,7 @@ Lemma ck_not_ws c : ws_elem c = false -> sep_from SEmpty [c] = true \/ True.
 Proof. auto. Qed.
 
 (* ------------------------------------------------------------------ scanning *)
-Fixpoint scan (cur : slot) (cs : list rtree) : list slot * slot :=
+Fixpoint scan (cur : fslot) (cs : list rtree) : list fslot * fslot :=
   match cs with
   | [] => ([], cur)
   | c :: r => match ck c with
@@ -307,7 +307,7 @@ Proof.
 Qed.
 
 (* ------------------------------------------------------------------ the oracle's count never grows *)
-Definition is_sfull (x : slot) : bool := negb (is_sempty x).
+Definition is_sfull (x : fslot) : bool := negb (is_sempty x).
 Lemma n_empty_eq s : n_empty_slots s = (length s - 1) - (count_if is_sfull s - 1).
 Proof. reflexivity. Qed.
 Lemma count_le_length {A} (p : A -> bool) l : count_if p l <= length l.
